@@ -6,6 +6,8 @@ CONSTANTS
   RegionSharesRules = TRUE
   Faults = TRUE
   MaxDamage = 1
+  FailedLoadKeepsRecord = FALSE
+  RepointKeepsTables = FALSE
   FullFlagInverted = TRUE
-INVARIANTS TypeOK RecoveredUnderAll NoErrorWhenAllGood
+INVARIANTS TypeOK RecoveredUnderAll NoErrorWhenAllGood RecoveredAfterRepoint
 CHECK_DEADLOCK FALSE
